@@ -44,9 +44,13 @@ Theorems (all for every shape, every `D`, `E`; no size bound anywhere):
   that a consumed operand is actually *constrained* is what C05/C07/C08/C13/C20 prove for the
   consuming gadgets, and what the perturbation campaign of this check observes on the real code.
 
-Not proved here: distinctness of the label naming scheme (checked at run time by the driver for
-every generated shape: `distinct 1`), and that the Rust traversals are what the model says (tied by
-the sentinel read-back correspondence, see `design_notes/C14.md`).
+Distinctness of the label naming scheme — what makes "position `k` carries the element labelled
+`ℓ`" an identification of elements — is proved for every shape in `Props/C14Labels.lean`
+(`alloc_labels_nodup_uni/batch`, `packed_position_unique_uni/batch`; the driver's per-shape check
+`distinct 1` is still evaluated and can no longer fail: `allDistinct_uni/batch`).
+
+Not proved here: that the Rust traversals are what the model says (tied by the sentinel read-back
+correspondence, see `design_notes/C14.md`).
 -/
 import P3R.Props.C14Siblings
 import Mathlib.Tactic.Tauto
